@@ -67,9 +67,33 @@ Record ms := MS {
   m_chain : list Z;
   m_vnow : list Z;             (* vouching the node still knows about (announcements are forgotten at restart) *)
   m_vpersist : list Z;         (* delivered as new from the trusted peer or locally: survives a restart *)
+  m_proofs : list (Z * Z);     (* the block of the last merkle proof notified for a transaction (newest first) *)
 }.
 
-Definition ms_init : ms := MS [] [] [] [] [] [] [] [] [] 0 false [0] [] [].
+Definition ms_init : ms := MS [] [] [] [] [] [] [] [] [] 0 false [0] [] [] [].
+
+Definition lookup_proof (m : ms) (t : Z) : option Z :=
+  match find (fun e => fst e =? t) (m_proofs m) with Some e => Some (snd e) | None => None end.
+
+(* Reorganisations.  A notification is "unconfirmed" when it carries no merkle proof or the proof of a block
+   that is not (no longer) in the chain the monitor follows.  A delivered transaction is in limbo when the block
+   that confirmed it was orphaned and it has not been notified again since: it is not tracked as unconfirmed and
+   its last proof is for a block outside the chain.  Such a transaction (and no other) may be delivered as new
+   once more - by a re-announcement or by a block of the new branch; from then on it is an unconfirmed
+   (or confirmed) transaction like any other. *)
+Definition limbo (m : ms) (t : Z) : bool :=
+  negb (mem t (m_live m)) &&
+  match lookup_proof m t with Some p => negb (mem p (m_chain m)) | None => false end.
+
+(* the block an operation processes *)
+Definition op_block (o : op) : option Z :=
+  match o with OBlock b _ _ _ | OReorg b _ _ _ => Some b | _ => None end.
+
+(* the notification is for an unconfirmed transaction: no proof, or the proof of a block that is neither in
+   the chain nor the block this step processes *)
+Definition ev_unconf (m : ms) (o : op) (e : ev) : bool :=
+  negb (mem (e_proof e) (m_chain m)) &&
+  match op_block o with Some b => negb (e_proof e =? b) | None => true end.
 
 Definition lookup_seen (m : ms) (t : Z) : option Z :=
   match find (fun e => fst e =? t) (m_seen m) with Some e => Some (snd e) | None => None end.
@@ -104,7 +128,7 @@ Fixpoint outs_ok (body outs : list Z) : bool :=
 Definition op_tx_info (o : op) (t : Z) : option (list Z * bool) :=
   match o with
   | OTx t' body rel _ => if t' =? t then Some (body, rel) else None
-  | OBlock _ _ txs _ =>
+  | OBlock _ _ txs _ | OReorg _ _ txs _ =>
       match find (fun x => fst (fst x) =? t) txs with
       | Some (_, body, rel) => Some (body, rel)
       | None => None
@@ -123,18 +147,20 @@ Definition check_event (delay : Z) (m : ms) (o : op) (e : ev) : Z :=
     | None => 111                                                  (* C03: delivered out of nowhere *)
     | Some (body, rel) =>
         if negb rel then 112 else                                  (* C03: non-matching tx delivered *)
-        if mem (e_t e) (m_delivered m) then 113 else               (* C03: delivered as new twice *)
+        if mem (e_t e) (m_delivered m) && negb (limbo m (e_t e)) then 113 else   (* C03: delivered as new twice
+                                                                       (allowed once more after its block was orphaned) *)
         if negb (outs_ok body (e_outs e)) then 114 else            (* C03: spent outputs *)
         match o with
         | OTx _ _ _ SLocal => 0
-        | OTx _ _ _ _ => if e_safe e && (e_proof e =? -1) then 126 else 0   (* C07: safe on arrival, not local *)
+        | OTx _ _ _ _ => if e_safe e && ev_unconf m o e then 126 else 0   (* C07/C12: safe on arrival, not local;
+                                                 also for a re-announced transaction whose block was orphaned *)
         | _ => 0
         end
     end
   else
     if negb (mem (e_t e) (m_delivered m)) then 115 else            (* C03: update for a tx never delivered *)
     (* C07: an unconfirmed safe report must be warranted and unique *)
-    if e_safe e && (e_proof e =? -1) then
+    if e_safe e && ev_unconf m o e then
       if mem (e_t e) (m_safe m) then 121 else                      (* safe reported twice *)
       if mem (e_t e) (m_local m) || (match o with OTx t' _ _ SLocal => t' =? e_t e | _ => false end) then 0 else
       if negb (mem (e_t e) (m_vouched m)) then 122 else            (* not vouched by the trusted peer *)
@@ -152,15 +178,20 @@ Definition first_bad (delay : Z) (m : ms) (o : op) (es : list ev) : Z :=
 Definition note_event (m : ms) (e : ev) : ms :=
   if (e_kind e =? 3) || (e_kind e =? 4) then m else
   let t := e_t e in
+  (* m is the bookkeeping after the step's own update: for a block step the chain already holds the block *)
+  let confirmed := mem (e_proof e) (m_chain m) in
   let unsafe' := if e_unsafe e || e_cancel e then add_z t (m_unsafe m) else m_unsafe m in
-  let safe' := if e_safe e && (e_proof e =? -1) then add_z t (m_safe m) else m_safe m in
+  (* a new-transaction notification starts the life of an unconfirmed transaction (again, after its block was
+     orphaned): what was reported for it as unconfirmed before does not count any more *)
+  let safe0 := if e_kind e =? 1 then remove_z t (m_safe m) else m_safe m in
+  let safe' := if e_safe e && negb confirmed then add_z t safe0 else safe0 in
   let delivered' := if e_kind e =? 1 then add_z t (m_delivered m) else m_delivered m in
-  let confirmed := negb (e_proof e =? -1) in
   let live' := if confirmed then remove_z t (m_live m)
                else if e_kind e =? 1 then add_z t (m_live m) else m_live m in
   let seen' := if (e_kind e =? 1) && negb confirmed then (t, m_clock m) :: m_seen m else m_seen m in
+  let proofs' := if e_proof e =? -1 then m_proofs m else (t, e_proof e) :: m_proofs m in
   MS (m_pool m) delivered' live' seen' (m_vouched m) (m_conflicted m) unsafe' safe' (m_local m)
-     (m_clock m) (m_insync m) (m_chain m) (m_vnow m) (m_vpersist m).
+     (m_clock m) (m_insync m) (m_chain m) (m_vnow m) (m_vpersist m) proofs'.
 
 (* ---- per-operation expectations ---- *)
 
@@ -177,7 +208,7 @@ Definition tx_step (delay : Z) (m : ms) (t : Z) (body : list Z) (rel : bool) (s 
   let vnow' := match s with SUntrusted => m_vnow m | _ => add_z t (m_vnow m) end in
   if held (m_pool m) t then
     (0, MS (m_pool m) (m_delivered m) (m_live m) (m_seen m) vouched' (m_conflicted m) (m_unsafe m)
-           (m_safe m) (m_local m) (m_clock m) (m_insync m) (m_chain m) vnow' (m_vpersist m))
+           (m_safe m) (m_local m) (m_clock m) (m_insync m) (m_chain m) vnow' (m_vpersist m) (m_proofs m))
   else
     let cs := conflicting_held (m_pool m) t body in
     let pool' := if zlen body =? 0 then m_pool m else m_pool m ++ [(t, body)] in
@@ -189,7 +220,7 @@ Definition tx_step (delay : Z) (m : ms) (t : Z) (body : list Z) (rel : bool) (s 
                      | _ => if delivered_now then add_z t (m_vpersist m) else m_vpersist m
                      end in
     let m' := MS pool' (m_delivered m) (m_live m) (m_seen m) vouched' conflicted' (m_unsafe m)
-                 (m_safe m) local' (m_clock m) (m_insync m) (m_chain m) vnow' vpersist' in
+                 (m_safe m) local' (m_clock m) (m_insync m) (m_chain m) vnow' vpersist' (m_proofs m) in
     (* C05: the new tx, if delivered now, and every live conflicting tx are reported unsafe *)
     let bad_new := has_ev es (fun e => (e_kind e =? 1) && (e_t e =? t) && negb (zlen cs =? 0) && negb (e_unsafe e)) in
     let bad_old := existsb (fun c => mem c (m_live m) &&
@@ -221,16 +252,17 @@ Definition block_step (m : ms) (b : Z) (txs : list btx) (es : list ev) : Z * ms 
        fold_left (fun l c => add_z c l) cs cf))
       txs (0, m_pool m, m_conflicted m) in
   (* C03/C04/C11: each matching tx of the block is notified with a proof for this block, as new if
-     never delivered, as an update otherwise *)
+     never delivered (or in limbo: the block that confirmed it was orphaned and it was not seen since),
+     as an update otherwise *)
   let bad_tx := existsb (fun x =>
       let '(t, body, rel) := x in
-      rel && negb (if mem t (m_delivered m)
+      rel && negb (if mem t (m_delivered m) && negb (limbo m t)
                    then has_ev es (fun e => (e_kind e =? 2) && (e_t e =? t) && (e_proof e =? b) && (e_depth e =? 0))
                    else has_ev es (fun e => (e_kind e =? 1) && (e_t e =? t) && (e_proof e =? b) && (e_depth e =? 0))))
       txs in
   ((if negb (code =? 0) then code else if bad_tx then 153 else 0),
    MS pool' (m_delivered m) (m_live m) (m_seen m) (m_vouched m) conflicted' (m_unsafe m) (m_safe m)
-      (m_local m) (m_clock m) (m_insync m) (m_chain m ++ [b]) (m_vnow m) (m_vpersist m)).
+      (m_local m) (m_clock m) (m_insync m) (m_chain m ++ [b]) (m_vnow m) (m_vpersist m) (m_proofs m)).
 
 (* the delay checker runs: every live tx whose conditions hold is reported safe now (C07 liveness) *)
 Definition delay_step (delay : Z) (m : ms) (es : list ev) : Z :=
@@ -244,13 +276,50 @@ Definition delay_step (delay : Z) (m : ms) (es : list ev) : Z :=
   then 162 else 0.
 
 Definition carries_events (o : op) : bool :=
-  match o with OTx _ _ _ _ | OBlock _ _ _ _ | ODelayCheck => true | _ => false end.
+  match o with OTx _ _ _ _ | OBlock _ _ _ _ | OReorg _ _ _ _ | ODelayCheck => true | _ => false end.
+
+(* the observation of a reorg step carries the in-sync flag, the chain height and the tip after the code *)
+Definition obs_events (o : op) (ob : obs) : obs :=
+  match o with
+  | OReorg _ _ _ _ => match ob with c :: _ :: _ :: _ :: rest => c :: rest | _ => [] end
+  | _ => ob
+  end.
+
+Definition set_insync (m : ms) (b : bool) : ms :=
+  MS (m_pool m) (m_delivered m) (m_live m) (m_seen m) (m_vouched m) (m_conflicted m)
+     (m_unsafe m) (m_safe m) (m_local m) (m_clock m) b (m_chain m) (m_vnow m) (m_vpersist m) (m_proofs m).
+
+(* The chain is reverted to the held block prev.  The transactions whose confirming block is orphaned are in
+   limbo from now on.  What the node knew about them as unconfirmed transactions (local submission, vouching
+   by the trusted peer as far as the liveness of the safe report is concerned) ended with their confirmation:
+   after the orphaning they are reported safe only under the rules for any unconfirmed transaction, from what
+   happens from now on.  In-sync is cleared. *)
+Definition revert_ms (m : ms) (prev : Z) : ms :=
+  let c := upto prev (m_chain m) in
+  let orphaned := fun t => match lookup_proof m t with Some p => mem p (m_chain m) && negb (mem p c) | None => false end in
+  let keep := fun l : list Z => filter (fun t => orphaned t = false) l in
+  MS (m_pool m) (m_delivered m) (m_live m) (m_seen m) (m_vouched m) (m_conflicted m) (m_unsafe m) (m_safe m)
+     (keep (m_local m)) (m_clock m) false c (keep (m_vnow m)) (keep (m_vpersist m)) (m_proofs m).
+
+(* what the headers handler does with the header of block b on parent prev: the bookkeeping after it and
+   whether the block is then requested and processed *)
+Definition header_step (m : ms) (b prev : Z) : ms * bool :=
+  let tip := default (-99) (last (m_chain m)) in
+  if b =? tip then (set_insync m true, false)              (* the tip again: headers in sync *)
+  else if prev =? tip then (m, true)                        (* the next block *)
+  else if mem b (m_chain m) then (m, false)                 (* held already *)
+  else if mem prev (m_chain m) then (revert_ms m prev, true)   (* a competing header: reorganisation *)
+  else (set_insync m false, false).                         (* unknown parent *)
+
+Definition pre_step (m : ms) (o : op) : ms * bool :=
+  match o with OReorg b prev _ _ => header_step m b prev | _ => (m, true) end.
 
 Definition monitor_step (delay : Z) (m : ms) (o : op) (ob : obs) : Z * ms :=
-  match (if carries_events o then decode_obs ob else Some (hd (-1) ob, [])) with
+  match (if carries_events o then decode_obs (obs_events o ob) else Some (hd (-1) ob, [])) with
   | None => (199, m)
   | Some (c, es) =>
-      let bad := first_bad delay m o es in
+      let '(m0, proc) := pre_step m o in
+      let bad := first_bad delay m0 o es in
       if negb (bad =? 0) then (bad, m) else
       let '(code, m1) :=
         match o with
@@ -258,24 +327,30 @@ Definition monitor_step (delay : Z) (m : ms) (o : op) (ob : obs) : Z * ms :=
         | OBlock b prev txs valid =>
             if c =? OK then block_step m b txs es
             else ((if negb (zlen es =? 0) then 154 else 0), m)         (* a refused block delivers nothing *)
+        | OReorg b prev txs valid =>
+            if proc then
+              (if c =? OK then block_step m0 b txs es
+               else ((if negb (zlen es =? 0) then 154 else 0), m0))     (* refused after the revert: the revert stays *)
+            else ((if c =? OK then 155 else if negb (zlen es =? 0) then 154 else 0), m0)
+                                                  (* C06/C02: a header that neither extends nor forks the chain is not processed *)
         | ODelayCheck => (delay_step delay m es, m)
         | OInv t trusted =>
             (0, if trusted && m_insync m
                 then MS (m_pool m) (m_delivered m) (m_live m) (m_seen m) (add_z t (m_vouched m)) (m_conflicted m)
                         (m_unsafe m) (m_safe m) (m_local m) (m_clock m) (m_insync m) (m_chain m)
-                        (add_z t (m_vnow m)) (m_vpersist m)
+                        (add_z t (m_vnow m)) (m_vpersist m) (m_proofs m)
                 else m)
         | OAdvance dt => (0, MS (m_pool m) (m_delivered m) (m_live m) (m_seen m) (m_vouched m) (m_conflicted m)
                                (m_unsafe m) (m_safe m) (m_local m) (m_clock m + dt) (m_insync m) (m_chain m)
-                               (m_vnow m) (m_vpersist m))
-        | OSetInSync b => (0, MS (m_pool m) (m_delivered m) (m_live m) (m_seen m) (m_vouched m) (m_conflicted m)
-                                (m_unsafe m) (m_safe m) (m_local m) (m_clock m) b (m_chain m) (m_vnow m) (m_vpersist m))
+                               (m_vnow m) (m_vpersist m) (m_proofs m))
+        | OSetInSync b => (0, set_insync m b)
         | ORestart =>
             (* the node forgets held bodies and announcements; what it delivered stays delivered *)
             (0, MS [] (m_delivered m) (m_live m) (m_seen m) (m_vouched m) (m_conflicted m)
-                   (m_unsafe m) (m_safe m) (m_local m) (m_clock m) false (m_chain m) (m_vpersist m) (m_vpersist m))
+                   (m_unsafe m) (m_safe m) (m_local m) (m_clock m) false (m_chain m) (m_vpersist m) (m_vpersist m)
+                   (m_proofs m))
         | OGetTx t => ((if mem t (m_delivered m) && negb (c =? OK) then 171 else 0), m)  (* C11: stored copy *)
-        | OUnconf => (0, m)
+        | OUnconf | OBlockTxs _ => (0, m)
         end in
       (code, fold_left note_event es m1)
   end.
@@ -291,6 +366,27 @@ Fixpoint monitor_from (delay : Z) (m : ms) (i : Z) (ops : list op) (tr : list ob
 
 Definition txflow_monitor (delay : Z) : checker op := fun ops tr => monitor_from delay ms_init 0 ops tr.
 
+(* Observation, not a property: a notification for an unconfirmed transaction that still carries a merkle
+   proof - the proof of the orphaned block that once confirmed it (today's code keeps the stored proof and
+   depth 0 when such a transaction is announced again, is reported safe by the delay check, unsafe or
+   cancelled).  C04 speaks of the notification for the inclusion in a block only, so this is recorded (181),
+   not judged. *)
+Definition step_events (o : op) (ob : obs) : list ev :=
+  if carries_events o then match decode_obs (obs_events o ob) with Some (_, es) => es | None => [] end else [].
+
+Fixpoint stale_from (delay : Z) (m : ms) (i : Z) (ops : list op) (tr : list obs) : option (Z * obs) :=
+  match ops, tr with
+  | o :: ops', ob :: tr' =>
+      let m0 := fst (pre_step m o) in
+      if existsb (fun e => ((e_kind e =? 1) || (e_kind e =? 2)) && negb (e_proof e =? -1) && ev_unconf m0 o e)
+                 (step_events o ob)
+      then Some (i, [181])
+      else stale_from delay (snd (monitor_step delay m o ob)) (i + 1) ops' tr'
+  | _, _ => None
+  end.
+
+Definition txflow_stale_monitor (delay : Z) : checker op := fun ops tr => stale_from delay ms_init 0 ops tr.
+
 (* ---------------------------------------------------------------------------------------- *)
 (* Histories the theorems quantify over (executable, so that generated cases can be checked to be
    inside the hypothesis): *)
@@ -298,7 +394,7 @@ Definition txflow_monitor (delay : Z) : checker op := fun ops tr => monitor_from
 Definition mentions (o : op) : list (Z * list Z * bool) :=
   match o with
   | OTx t body rel _ => [(t, body, rel)]
-  | OBlock _ _ txs _ => txs
+  | OBlock _ _ txs _ | OReorg _ _ txs _ => txs
   | _ => []
   end.
 
@@ -327,24 +423,73 @@ Fixpoint pairwise_disjoint (txs : list (Z * list Z * bool)) : bool :=
       && pairwise_disjoint txs'
   end.
 
-Definition block_ids (ops : list op) : list Z :=
-  flat_map (fun o => match o with OBlock b _ _ _ => [b] | _ => [] end) ops.
+(* block messages: id, parent, validity, transactions *)
+Definition block_msgs (ops : list op) : list (Z * Z * bool * list (Z * list Z * bool)) :=
+  flat_map (fun o => match o with OBlock b p txs v | OReorg b p txs v => [(b, p, v, txs)] | _ => [] end) ops.
 
-Definition block_txids (ops : list op) : list Z :=
-  flat_map (fun o => match o with OBlock _ _ txs _ => map (fun x => fst (fst x)) txs | _ => [] end) ops.
-
-Definition block_msgs (ops : list op) : list (Z * list (Z * list Z * bool)) :=
-  flat_map (fun o => match o with OBlock b _ txs _ => [(b, txs)] | _ => [] end) ops.
-
-Definition blocks_consistent (l : list (Z * list (Z * list Z * bool))) : bool :=
+(* a block id always comes with the same parent, validity and transactions (it is the hash of the header) *)
+Definition blocks_consistent (l : list (Z * Z * bool * list (Z * list Z * bool))) : bool :=
   forallb (fun e => forallb (fun e' =>
-     if fst e =? fst e' then zlist_eq (map (fun y => fst (fst y)) (snd e)) (map (fun y => fst (fst y)) (snd e'))
+     let '(b, p, v, txs) := e in let '(b', p', v', txs') := e' in
+     if b =? b' then (p =? p') && Bool.eqb v v' &&
+                     zlist_eq (map (fun y => fst (fst y)) txs) (map (fun y => fst (fst y)) txs')
      else true) l) l.
 
-Fixpoint dedup_blocks (l : list (Z * list (Z * list Z * bool))) : list (Z * list (Z * list Z * bool)) :=
-  match l with
-  | [] => []
-  | e :: l' => e :: filter (fun e' => fst e' ≠ fst e) (dedup_blocks l')
+(* The part of the hypothesis that follows the run of the model (model/TxFlow.v is tied to the code by the
+   correspondence check, so this is a statement about histories of the real node): *)
+
+(* the stored state of t carries the proof of a block of the chain the node holds *)
+Definition confirmed (n : node) (t : Z) : bool :=
+  match states n !! t with
+  | Some s => match s_proof s with Some b => in_chain n b | None => false end
+  | None => false
+  end.
+
+(* the node on which the block of a block / reorg step is processed (None: the header is not followed) *)
+Definition header_node (n : node) (o : op) : option node :=
+  match o with
+  | OBlock _ _ _ _ => Some n
+  | OReorg b prev _ _ =>
+      let tip := default (-99) (last (chain n)) in
+      if b =? tip then None else if prev =? tip then Some n else if in_chain n b then None
+      else if in_chain n prev then Some (revert n prev) else None
+  | _ => None
+  end.
+
+Definition accepts (n : node) (b prev : Z) (valid : bool) : bool :=
+  negb (in_chain n b) && (default (-99) (last (chain n)) =? prev) && valid.
+
+(* R: the transactions that were sent to the node again while confirmed in the chain (they sit in the mempool
+   as confirmed transactions, and conflicts seen from then on are not recorded for them) *)
+Definition op_ok (n : node) (R : list Z) (o : op) : bool :=
+  (* no step delivers, as new and safe, a transaction whose stored state is unsafe.  Excludes two defects of
+     the code on reorganisations (reported): the local re-submission of a transaction whose confirming block was
+     orphaned and that was unsafe (it is delivered with safe and unsafe both set), and its inclusion in a block
+     of the new branch before it was announced again (delivered as new, safe, the unsafe flag lost) *)
+  forallb (fun e => if e_kind e =? 1
+                    then match states n !! e_t e with Some s => negb (s_unsafe s && e_safe e) | None => true end
+                    else true) (step_events o (snd (step n o)))
+  && match o, header_node n o with
+     | (OBlock b prev txs valid | OReorg b prev txs valid), Some n' =>
+         (* the block of a transaction that was sent again while confirmed is not orphaned (reported defects:
+            such a transaction stays in the mempool; if its block is orphaned it is not notified when a block
+            of the new branch confirms it while in sync, and a conflict recorded while it was confirmed is lost) *)
+         forallb (confirmed n') R
+         (* a block the node accepts holds no transaction that is confirmed in the chain it extends *)
+         && (if accepts n' b prev valid then forallb (fun x => negb (confirmed n' (fst (fst x)))) txs else true)
+     | _, _ => true
+     end.
+
+Definition next_R (n : node) (R : list Z) (o : op) : list Z :=
+  match o with
+  | OTx t _ _ s => if (match s with STrusted => insync n | _ => true end) && confirmed n t then add_z t R else R
+  | _ => R
+  end.
+
+Fixpoint hyp_from (n : node) (R : list Z) (ops : list op) : bool :=
+  match ops with
+  | [] => true
+  | o :: ops' => op_ok n R o && hyp_from (fst (step n o)) (next_R n R o) ops'
   end.
 
 Definition flow_valid (delay : Z) (ops : list op) : bool :=
@@ -353,13 +498,12 @@ Definition flow_valid (delay : Z) (ops : list op) : bool :=
   && forallb (fun e => nodupb (snd (fst e))) (flat_map mentions ops)
   && forallb (fun o => match o with
                        | OAdvance dt => 0 <=? dt
-                       | OBlock b _ txs _ => (0 <? b) && pairwise_disjoint txs   (* 0 is genesis; -1 encodes "no proof" *)
+                       | OBlock b _ txs _ | OReorg b _ txs _ => (0 <? b) && pairwise_disjoint txs
+                                                              (* 0 is genesis; -1 encodes "no proof" *)
                        | _ => true
                        end) ops
   && blocks_consistent (block_msgs ops)               (* a block id always comes with the same content *)
-  && nodupb (flat_map (fun x => map (fun y => fst (fst y)) (snd x)) (dedup_blocks (block_msgs ops))).
-                                     (* a transaction is in at most one block (no reorg here);
-                                        the same block may be sent any number of times *)
+  && hyp_from (n_init delay) [] ops.
 
 (* the monitor never objects with a code of the given set *)
 Definition never_objects (delay : Z) (codes : list Z) (ops : list op) : Prop :=
